@@ -40,7 +40,7 @@ def main(tier):
         jobs += [dict(family="sync", model="mutex2x2", bound=4, env=env)]
         jobs += [dict(family="sync", model=m, bound=3, env=env) for m in MORE]
         bounds = {"2 threads": "unbounded (mutex2x2: 4)", "3-4 threads": 3}
-        bfs = [(16, 400000, 2, "homes {0,8}, all removals"), (24, 300000, 12, "homes {0,8}, oldest/newest removal"),
+        bfs = [(16, 400000, 2, "homes {0,8}, all removals"), (22, 400000, 12, "homes {0,8}, oldest/newest removal"),
                (12, 400000, 4, "homes {0,8,16,24}")]
     else:
         jobs += [dict(family="sync", model=m, bound=None, env=env) for m in TWO]
